@@ -1,5 +1,6 @@
 """Discharge obligations: z3 (Python API, resource limit) first, cvc5 (CLI, SMT-LIB export) for what z3 leaves open."""
 import os
+import sys
 import subprocess
 import tempfile
 import time
@@ -69,7 +70,7 @@ def slice_assumptions(obl):
     return keep
 
 
-def check_z3(obl, rlimit, timeout_ms=60000, assumptions=None, opts=None):
+def check_z3(obl, rlimit, timeout_ms=600000, assumptions=None, opts=None):      # the resource limit is the real (deterministic) bound; the wall-clock limit is a safety net sized for a fully loaded machine
     s = z3.Solver()
     s.set('rlimit', rlimit)
     s.set('timeout', timeout_ms)
@@ -104,8 +105,12 @@ def check_cvc5(obl, timeout_s=30):
         p = subprocess.run(['/usr/bin/cvc5', '--lang', 'smt2', f'--tlimit={timeout_s * 1000}', '--strings-exp', '--full-saturate-quant', fn],
                            capture_output=True, text=True, timeout=timeout_s + 5)
         out = p.stdout.strip().split('\n')[0] if p.stdout.strip() else 'unknown'
+        if os.environ.get('PYVC_DEBUG_CVC5'):
+            sys.stderr.write(f'CVC5 {obl.name[-50:]} -> {out!r} rc={p.returncode} {time.time() - t0:.1f}s err={p.stderr[:150]!r}\n')
     except subprocess.TimeoutExpired:
         out = 'unknown'
+        if os.environ.get('PYVC_DEBUG_CVC5'):
+            sys.stderr.write(f'CVC5 {obl.name[-50:]} -> python-side timeout after {time.time() - t0:.1f}s\n')
     finally:
         os.unlink(fn)
     return out, time.time() - t0
@@ -170,7 +175,7 @@ def expand(t, memo=None):
     return z3.substitute(t, *pairs)
 
 
-def bounded_candidate(obl, timeout_ms=20000):
+def bounded_candidate(obl, timeout_ms=60000):
     s = z3.Solver()
     s.set('timeout', timeout_ms)
     memo = {}
@@ -236,7 +241,7 @@ def discharge(obl, tier='quick', second_opinion=False, cvc5_ok=True, rl_div=1):
             res['candidate_model'] = cm
     except Exception as e:
         res['candidate_error'] = f'{type(e).__name__}: {e}'
-    r2, dt2 = check_cvc5(obl, 20 if tier == 'quick' else 120)
+    r2, dt2 = check_cvc5(obl, 120 if tier == 'quick' else 300)      # wall-clock limits: sized so that a verdict does not flip when all cores are busy
     res['cvc5'] = r2
     res['cvc5_fallback_seconds'] = time.time() - t_fb
     res['seconds'] += dt2
